@@ -656,7 +656,7 @@ var specPar = pbt.Register(&pbt.Spec[Case]{
 		"Read-back after the constructor and after EVERY operation: Row(y) of every row compared with the model as a block (length = width) and Get in the columns at the edges of the grid and of " +
 		"the last rectangle / window (in every row up to 4096 rows, else in 4096 rows spread over the grid and those around the rectangle's first, middle and last row); all kept windows and the clone witness likewise; at the end Get over the whole grid (above 2^20 cells: at 2^20 cells spread evenly over it). non-trivial = w != h and a Fill of at least 2^18 cells succeeded",
 	Enum: parCases,
-	Run:  Run,
+	Run:  Run, Retries: 3, // what a defect in a parallel path does depends on the scheduling: a replay may need more than one attempt
 })
 
 func TestC08Par(t *testing.T) { pbt.Check(t, specPar) }
